@@ -58,7 +58,7 @@ class _ConcreteScripted:
             out = self._forked_outcomes(n, k, replace)
             if out is None:
                 out = list(self._rng.choice(n, k, replace=replace, p=p))
-        self.log.append(('choice', n, size, p, [int(x) for x in out]))
+        self.log.append(('choice', n, size, p, [int(x) for x in out], bool(replace)))
         vals = [pool[i] for i in out] if pool is not None else out
         if size is None:
             return vals[0]
@@ -213,6 +213,8 @@ def h_square_prob3(ctx, targets):
     ctx.claim('returns_drawn_indices', [[int(x) for x in row] for row in I] == [list(t) for t in targets])
     ch = [e for e in g.log if e[0] == 'choice']
     ctx.claim('draw_count', len(ch) == 1 + 2 * m)
+    # the samples of one call are independent draws: the batched first-mode draw is made with replacement
+    ctx.claim('samples_of_a_batch_are_independent_draws', all(e[5] for e in ch))
     for s_, t in enumerate(targets):
         p0 = ch[0][3][t[0]]
         p1 = ch[1 + s_][3][t[1]]
@@ -349,6 +351,17 @@ def h_concrete_many_samples(ctx):
             oku = oku and Iu.shape == (m, len(n)) and len({tuple(int(v) for v in row) for row in Iu}) == m
             oku = oku and all(0 <= int(row[k]) < n[k] for row in Iu for k in range(len(n)))
     ctx.claim('unique_rows_up_to_the_whole_tensor', bool(oku))
+    # a mode longer than 2^15 with all mass beyond index 32767 (real code): the indices come back as they are
+    G1 = np.zeros((1, 40000, 1))
+    G1[0, 33000, 0] = 2.
+    G1[0, 39999, 0] = 1.
+    Yl = [np.ones((1, 3, 1)), G1, np.ones((1, 2, 1))]
+    okl = True
+    for fn, kw in ((teneva.sample, {}), (teneva.sample_square, {'unique': False})):
+        J = fn(Yl, 40, seed=5, **kw)
+        okl = okl and J.shape == (40, 3) and bool(np.all((J[:, 1] == 33000) | (J[:, 1] == 39999)))
+        okl = okl and bool(np.all((J[:, 0] >= 0) & (J[:, 0] < 3) & (J[:, 2] >= 0) & (J[:, 2] < 2)))
+    ctx.claim('indices_of_long_modes_returned_unchanged', bool(okl))
 
 
 def h_lhs(ctx, n, m, perm):
